@@ -17,8 +17,9 @@ from . import sigv4
 
 
 class FakeS3:
-    def __init__(self, bucket='bkt', key_id='AKIDEXAMPLE', secret='wJalrXUtnFEMI/K7MDENG+bPxRfiCYEXAMPLEKEY', page_size=1000, faults=None):
+    def __init__(self, bucket='bkt', key_id='AKIDEXAMPLE', secret='wJalrXUtnFEMI/K7MDENG+bPxRfiCYEXAMPLEKEY', page_size=1000, faults=None, verify_signatures=True):
         self.bucket, self.key_id, self.secret, self.page_size = bucket, key_id, secret, page_size
+        self.verify_signatures = verify_signatures
         self.objects = {}
         self.requests = []      # captured: dict(method, target, headers, body, verdict)
         self.faults = faults    # callable(request_record) -> None | httpx.Response | Exception
@@ -50,7 +51,7 @@ class FakeS3:
                 raise r
             if r is not None:
                 return r
-        if not verdict['sigOk'] or verdict.get('declaredHash') not in (verdict.get('bodyHash'), 'UNSIGNED-PAYLOAD'):
+        if self.verify_signatures and (not verdict['sigOk'] or verdict.get('declaredHash') not in (verdict.get('bodyHash'), 'UNSIGNED-PAYLOAD')):
             return httpx.Response(403, content=b'<Error><Code>SignatureDoesNotMatch</Code></Error>')
         if 'content-length' in headers and int(headers['content-length']) != len(body):
             return httpx.Response(400, content=b'<Error><Code>IncompleteBody</Code></Error>')
